@@ -29,6 +29,51 @@ impl TransportError {
     pub fn STREAM_LIMIT_ERROR(_r: &'static str) -> (r: Self) ensures r.code == Code::STREAM_LIMIT_ERROR { TransportError { code: Code::STREAM_LIMIT_ERROR } }
     pub fn FRAME_ENCODING_ERROR(_r: &'static str) -> (r: Self) ensures r.code == Code::FRAME_ENCODING_ERROR { TransportError { code: Code::FRAME_ENCODING_ERROR } }
 }
+/// the reassembly buffer as far as StreamsState's own code looks at it
+pub struct Assembler { pub br: u64 }
+impl Assembler { pub fn bytes_read(&self) -> (r: u64) ensures r == self.br { self.br } }
+/// The receive half of a stream as far as StreamsState's own code looks at it (`stopped`, `end`, `assembler.bytes_read()`), plus
+/// `reset` standing for `state is ResetRecvd`.  `Recv::reset` carries the clauses proved on the real function in unit recv.
+pub struct Recv { pub stopped: bool, pub end: u64, pub assembler: Assembler, pub reset: bool, pub sent_max_stream_data: u64 }
+impl Recv {
+    /// Recv::wf of unit recv (bytes_read <= end <= sent_max_stream_data < 2^62, ...)
+    pub uninterp spec fn wf_spec(&self) -> bool;
+    #[verifier::external_body] pub proof fn lemma_wf(&self) ensures self.wf_spec() ==> self.assembler.br <= self.end && self.end < 0x4000_0000_0000_0000 {}
+    /// how much of this stream has already been returned to the connection-level window: everything received once the application
+    /// stopped the stream (Recv::stop credits `end - bytes_read`, later frames are credited as they arrive), otherwise what was read
+    pub open spec fn credited(&self) -> u64 { if self.stopped { self.end } else { self.assembler.br } }
+    #[verifier::external_body]
+    pub fn reset(&mut self, error_code: VarInt, final_offset: VarInt, received: u64, max_data: u64) -> (res: Result<bool, TransportError>)
+        requires old(self).wf_spec(), received <= max_data < 0x4000_0000_0000_0000, final_offset.0 < 0x4000_0000_0000_0000
+        ensures final(self).wf_spec(),
+            match res {
+                Ok(fresh) => final_offset.0 >= old(self).end && received + (final_offset.0 - old(self).end) <= max_data
+                    && fresh == !old(self).reset && (fresh ==> final(self).reset) && (!fresh ==> *final(self) == *old(self))
+                    && final(self).end == old(self).end && final(self).stopped == old(self).stopped && final(self).assembler.br == old(self).assembler.br,
+                Err(_) => *final(self) == *old(self),
+            }
+    { unimplemented!() }
+}
+pub mod frame { use super::*; pub struct ResetStream { pub id: super::super::code::StreamId, pub error_code: VarInt, pub final_offset: VarInt } }
+/// what the map holds for `id` once a lazily created Recv has been materialised (None: no such stream)
+pub uninterp spec fn recv_abs(m: FxHashMap<super::code::StreamId, Option<StreamRecv>>, id: super::code::StreamId) -> Option<Recv>;
+/// `self.recv.get_mut(&id).map(get_or_insert_recv(self.stream_receive_window))`: the stream's receive half, created on first use.
+/// Every Recv kept in the map satisfies Recv::wf (established by Recv::new / reinit, kept by every Recv operation: unit recv).
+#[verifier::external_body]
+pub fn recv_entry<'a>(m: &'a mut FxHashMap<super::code::StreamId, Option<StreamRecv>>, id: super::code::StreamId, window: u64) -> (r: Option<&'a mut Recv>)
+    ensures match r {
+        Some(rs) => recv_abs(*old(m), id) == Some(*rs) && rs.wf_spec() && recv_abs(*final(m), id) == Some(*final(rs)),
+        None => recv_abs(*old(m), id).is_none() && *final(m) == *old(m),
+    }
+{ unimplemented!() }
+/// `self.recv.remove(&id).flatten().unwrap()`
+#[verifier::external_body]
+pub fn recv_take(m: &mut FxHashMap<super::code::StreamId, Option<StreamRecv>>, id: super::code::StreamId) -> (r: StreamRecv)
+    requires recv_abs(*old(m), id).is_some()
+    ensures recv_abs(*final(m), id).is_none()
+{ unimplemented!() }
+pub assume_specification<T, E, F: FnOnce(&E)> [Result::<T, E>::inspect_err] (r: Result<T, E>, f: F) -> (o: Result<T, E>)
+    ensures o == r;
 /// connection::State: only `is_closed` is used here
 #[verifier::external_body] pub struct State { x: u8 }
 impl State {
@@ -129,6 +174,51 @@ impl StreamsState {
             final(self).send_streams == old(self).send_streams, final(self).streams_blocked == old(self).streams_blocked,
             final(self).max_data == old(self).max_data, final(self).data_sent == old(self).data_sent, final(self).unacked_data == old(self).unacked_data,
     { unimplemented!() }
+
+    /// flow-control part of the state, which the hash-map / event-queue helpers below do not touch
+    pub open spec fn fc(&self) -> (u64, u64, u64, VarInt, u64, u64) {
+        (self.local_max_data, self.data_recvd, self.receive_window_shrink_debt, self.sent_max_data, self.receive_window, self.stream_receive_window)
+    }
+    /// opaque: bookkeeping when a receive half is dropped (stream counters, recycling the allocation); touches no flow-control field
+    #[verifier::external_body]
+    pub fn stream_recv_freed(&mut self, id: StreamId, recv: StreamRecv)
+        ensures final(self).fc() == old(self).fc(), final(self).recv == old(self).recv, final(self).side == old(self).side,
+    { unimplemented!() }
+    /// opaque: application events / implicit opening of lower-numbered remote streams; touches no flow-control field
+    #[verifier::external_body]
+    pub fn on_stream_frame(&mut self, notify_readable: bool, stream: StreamId)
+        ensures final(self).fc() == old(self).fc(), final(self).recv == old(self).recv, final(self).side == old(self).side,
+    { unimplemented!() }
+
+//@ extract quinn-proto/src/connection/streams/state.rs :: impl StreamsState::fn received_reset
+//@ props C06
+//@ ret res
+//@ closure 0 : &TransportError -> (u: ())
+//@ replace ws:self .recv .get_mut(&id) .map(get_or_insert_recv(self.stream_receive_window)) => recv_entry(&mut self.recv, id, self.stream_receive_window)
+//@ replace self.recv.remove(&id).flatten().unwrap() => recv_take(&mut self.recv, id)
+//@ contract
+        requires
+            old(self).sent_max_data.0 <= old(self).local_max_data || old(self).local_max_data > VarInt::MAX.0,
+            old(self).data_recvd <= old(self).local_max_data < 0x4000_0000_0000_0000,
+            frame.final_offset.0 < 0x4000_0000_0000_0000,
+        ensures match res {
+            Ok(_) => match recv_abs(old(self).recv, frame.id) {
+                // the first RESET_STREAM for a known stream: the bytes up to the final size that never arrived now count as received, and
+                // credit is returned for exactly the part of the stream that had not been credited yet -- each byte once
+                Some(r0) => if !r0.reset {
+                    &&& frame.final_offset.0 >= r0.end
+                    &&& final(self).data_recvd == sat_add(old(self).data_recvd, (frame.final_offset.0 - r0.end) as u64)
+                    &&& final(self).local_max_data == sat_add(old(self).local_max_data, sat_sub((frame.final_offset.0 - r0.credited()) as u64, old(self).receive_window_shrink_debt))
+                } else {
+                    final(self).fc() == old(self).fc()
+                },
+                None => final(self).fc() == old(self).fc(),
+            },
+            Err(_) => final(self).fc() == old(self).fc(),
+        }
+//@ after let end = rs.end;
+        proof { rs.lemma_wf(); }
+//@ end
 
 //@ extract quinn-proto/src/connection/streams/state.rs :: impl StreamsState::fn write_limit
 //@ props C05
